@@ -22,6 +22,7 @@ import (
 	"github.com/lindb/lindb/pkg/timeutil"
 	"github.com/lindb/lindb/replica"
 	"github.com/lindb/lindb/series/metric"
+	"github.com/lindb/lindb/sql/stmt"
 	"github.com/lindb/lindb/tsdb"
 
 	"verif/harness/internal/kvwrap"
@@ -387,6 +388,16 @@ func (r *nodeRun) reachableSeries(id metric.ID) map[uint32]bool {
 		return out
 	}
 	byMetric.And(byTag)
+	// ... and by tag value (the inverted index): a query with `host='h'`
+	vals, err := r.n.db.MetaDB().FindTagValueDsByExpr(tm.ID, &stmt.EqualsExpr{Key: "host", Value: "h"})
+	if err != nil || vals == nil {
+		return out
+	}
+	byVal, err := idx.GetSeriesIDsByTagValueIDs(tm.ID, vals)
+	if err != nil || byVal == nil {
+		return out
+	}
+	byMetric.And(byVal)
 	it := byMetric.Iterator()
 	for it.HasNext() {
 		out[it.Next()] = true
